@@ -22,7 +22,9 @@
 #include <ctype.h>
 
 static void FuncSUBSTR(TempResult* pResult, TempResult const* pArgs, unsigned ArgCnt) {
-    int cnt = pArgs[0].Contents.str.len - pArgs[1].Contents.Int;
+    /* a position smaller than zero is treated as zero */
+    LargeInt Start = (pArgs[1].Contents.Int < 0) ? 0 : pArgs[1].Contents.Int;
+    int      cnt   = pArgs[0].Contents.str.len - Start;
 
     UNUSED(ArgCnt);
     if ((pArgs[2].Contents.Int != 0) && (pArgs[2].Contents.Int < cnt)) {
@@ -33,8 +35,7 @@ static void FuncSUBSTR(TempResult* pResult, TempResult const* pArgs, unsigned Ar
     }
     as_tempres_set_c_str(pResult, "");
     as_nonz_dynstr_append_raw(
-            &pResult->Contents.str, pArgs[0].Contents.str.p_str + pArgs[1].Contents.Int,
-            cnt);
+            &pResult->Contents.str, pArgs[0].Contents.str.p_str + Start, cnt);
 }
 
 static void FuncSTRSTR(TempResult* pResult, TempResult const* pArgs, unsigned ArgCnt) {
